@@ -313,7 +313,7 @@ macro_rules! impl_div_for_primitive {
         impl DivAssign<$t> for BigDecimal {
             fn div_assign(&mut self, rhs: $t) {
                 if rhs.is_zero() {
-                    *self = BigDecimal::zero()
+                    panic!("Division by zero");
                 } else if rhs.is_one() {
                     // no-op
                 } else {
